@@ -58,6 +58,7 @@ class Ctx:
         self.prop, self.tier, self.seed = prop, tier, seed
         self.t0 = time.time()
         self.breaks = []          # Break
+        self.unpredicted = []     # judge failures with a known class on inputs where model != implementation
         self.violations = []      # dict(case=…, why=…)  unlisted judge failures on the implementation
         self.mismatches = []      # model != impl (judge ok or known)
         self.known_seen = {}      # class -> example case
@@ -341,6 +342,11 @@ class Ctx:
             if not ans.get("match", True):
                 self.mismatches.append({"case": case, "impl": triple["impl"], "model": ans.get("model"), "judge": j})
             if not j["ok"]:
+                if j["known"] and not ans.get("match", True):
+                    # the property fails on the implementation's output and the model does NOT behave like the
+                    # implementation here: the listed class cannot account for it (DESIGN §4); kept as the failing input
+                    # of the correspondence break
+                    self.unpredicted.append({"case": case, "impl": triple["impl"], "why": j.get("why", "") + f" [judge names {j['known']}, but model and implementation differ on this input: not attributed]"})
                 if j["known"] and ans.get("match", True):
                     for k in j["known"]:
                         self.known_seen.setdefault(k, {"case": case, "impl": triple["impl"], "why": j.get("why", "")})
@@ -417,6 +423,15 @@ class Ctx:
             rp = os.path.join(rdir, f"{self.prop}.json")
             json.dump({"property": self.prop, "kind": "failing-input", "case": v["case"], "impl": v.get("impl"), "why": v.get("why"),
                        "all": self.violations[:20], "breaks": [b.to_json() for b in self.breaks]}, open(rp, "w"), indent=1, ensure_ascii=False)
+            lines.append(f"VIOLATION property={self.prop} replay={rp}")
+            rc = 1
+        elif (self.breaks or self.mismatches) and self.unpredicted:
+            v = self.unpredicted[0]
+            rp = os.path.join(rdir, f"{self.prop}.json")
+            json.dump({"property": self.prop, "kind": "failing-input", "case": v["case"], "impl": v.get("impl"), "why": v.get("why"),
+                       "all": self.unpredicted[:20], "breaks": [b.to_json() for b in self.breaks],
+                       "no_longer_checks": [b.name for b in self.breaks] + ([f"correspondence:{self.mismatches[0]['case'].get('op')}"] if self.mismatches else [])},
+                      open(rp, "w"), indent=1, ensure_ascii=False)
             lines.append(f"VIOLATION property={self.prop} replay={rp}")
             rc = 1
         elif self.breaks or self.mismatches:
